@@ -8,6 +8,7 @@
 package c53
 
 import (
+	"strings"
 	"fmt"
 	abci "github.com/gnolang/gno/tm2/pkg/bft/abci/types"
 	"math/rand/v2"
@@ -38,7 +39,7 @@ func init() {
 	})
 }
 
-func genGenesis(ch *chainsim.Chain, rng *rand.Rand) gnoland.GnoGenesisState {
+func genGenesis(ch *chainsim.Chain, rng *rand.Rand, big int) gnoland.GnoGenesisState {
 	st := hist.Genesis(ch)
 	// extra balances: new addresses, duplicates of existing entries, vesting accounts
 	n := 3 + rng.IntN(12)
@@ -60,8 +61,20 @@ func genGenesis(ch *chainsim.Chain, rng *rand.Rand) gnoland.GnoGenesisState {
 		st.Txs = append(st.Txs, gnoland.TxWithMetadata{Tx: std.Tx{Msgs: msgs, Fee: fee, Signatures: []std.Signature{{}}}, Metadata: meta})
 	}
 	m := 4 + rng.IntN(10)
+	bigAt := -1
+	if big >= 0 {
+		bigAt = 1 + rng.IntN(m-2) // never first or last: txs follow it
+	}
 	for i := 0; i < m; i++ {
 		var meta *gnoland.GnoTxMetadata
+		if i == bigAt {
+			// one element of the genesis whose serialised form is around / above 64 KiB, 1 MiB or 2 MiB
+			size := []int{1_050_000, 2_100_000, 1_200_000, 66_000, 1_048_000, 65_000}[big%6]
+			p := fmt.Sprintf("gno.land/r/verif/big%d", i)
+			body := fmt.Sprintf("package big%d\n\nvar X = %d\n\n/*\n%s\n*/\n", i, rng.IntN(99), strings.Repeat("0123456789abcdef0123456789abcdef0123456789abcdef0123456789abcde\n", size/64))
+			add([]std.Msg{vm.NewMsgAddPackage(dep.Addr, p, chainsim.Files(p, map[string]string{"a.gno": body}))}, nil)
+			continue
+		}
 		if rng.IntN(2) == 0 {
 			meta = &gnoland.GnoTxMetadata{Timestamp: ch.Time.Unix() - int64(rng.IntN(100000))}
 		}
@@ -127,7 +140,14 @@ func run(c *vf.Ctx) {
 		seed := uint64(c.Seed)*100 + uint64(i)
 		proto, _ := chainsim.New(chainsim.Options{})
 		t0 := proto.Time
-		st := genGenesis(proto, rng)
+		bigIdx := -1
+		if i%2 == 0 {
+			bigIdx = int(c.Seed) % 3 // the first genesis of a run always carries an element above 1 MiB
+			if i > 0 {
+				bigIdx = i/2 + int(c.Seed)
+			}
+		}
+		st := genGenesis(proto, rng, bigIdx)
 		proto.Close()
 		ok, fail := 0, 0
 		ref := apply(st, t0)
